@@ -149,6 +149,8 @@ def prepare():
         print(r.stderr[-3000:]); sys.exit(2)
 
 def run_props(props):
+    os.makedirs(f"{OUT}/work", exist_ok=True)
+    sh(f"python3 /verif/tools/mkdict.py {MREPO} {OUT}/work/dict.json")
     res = {}
     for p in props:
         env = dict(os.environ, VERIF_DIR=OUT, VERIF_SEED="1")
